@@ -279,7 +279,7 @@ PROPS['C01'] = dict(
 
 PROPS['C04'] = dict(
     codec=[('decode_gen', 1500, 20000)],
-    sess=[('py_c04', 400, 6000), ('sess_c04', 300, 5000), ('sess_base', 100, 2000), ('py_edges', 200, 3000), ('py_c08', 200, 3000)],
+    sess=[('py_c04', 400, 6000), ('py_c04w', 224, 1120), ('sess_c04', 300, 5000), ('sess_base', 100, 2000), ('py_edges', 200, 3000), ('py_c08', 200, 3000)],
     events='wrf', state=['srv', 'ctl', 'conn', 'live', 'sp', 'rb', 'pl'],
     monitors=[M.mon_c04, M.mon_c04_valid, M.mon_panic],
     codec_monitors=[M.mon_decode],
